@@ -29,6 +29,32 @@ func newEntityIndexMap(requestedEntityType string, representations []gjson.Resul
 	return indexMap
 }
 
+// entityTypeOf returns the entity type whose representations the call works on: the requested type of an
+// entity lookup, the key type of a @requires call and, for a field resolver, the type of the entity lookup
+// it (transitively) depends on. It returns "" for a call that does not belong to an entity lookup.
+func (r *RPCExecutionPlan) entityTypeOf(call *RPCCall) string {
+	switch call.Kind {
+	case CallKindEntity:
+		return call.RequestedEntityType
+	case CallKindRequired:
+		if context := call.Request.Fields.ByName(contextFieldName); context != nil && context.Message != nil {
+			if key := context.Message.Fields.ByName("key"); key != nil && key.Message != nil && len(key.Message.MemberTypes) == 1 {
+				return key.Message.MemberTypes[0]
+			}
+		}
+	case CallKindResolve:
+		for _, id := range call.DependentCalls {
+			for i := range r.Calls {
+				if r.Calls[i].ID == id {
+					return r.entityTypeOf(&r.Calls[i])
+				}
+			}
+		}
+	}
+
+	return ""
+}
+
 // getRepresentations gets the representations from the variables.
 // If no representations are found, it returns nil.
 func getRepresentations(variables gjson.Result) []gjson.Result {
